@@ -4,59 +4,59 @@ namespace AsynqModel.Decorators
 
 theorem modelCv_eq_ref_sync (k : Kind) (ft : FnType) (acc : Access) (bk : BodyKind) (a : Args)
     (keyOf : Args → Args) (hf : Nat → Nat) (rs : Bool) (rel : Rel) (h : supported k ft acc = true) :
-    modelCv (Env.quiet keyOf hf rs) ⟨k, ft, acc, bk⟩ .sync a rel = refCv ⟨k, ft, acc, bk⟩ .sync a rel := by
+    modelCvF (Env.quiet keyOf hf rs) ⟨k, ft, acc, bk⟩ .sync a rel = refCv ⟨k, ft, acc, bk⟩ .sync a rel := by
   cases k <;> cases ft <;> cases acc <;> cases bk <;> first | rfl | (simp [supported] at h)
 
 theorem modelCv_eq_ref_asynqValue (k : Kind) (ft : FnType) (acc : Access) (bk : BodyKind) (a : Args)
     (keyOf : Args → Args) (hf : Nat → Nat) (rs : Bool) (rel : Rel) (h : supported k ft acc = true) :
-    modelCv (Env.quiet keyOf hf rs) ⟨k, ft, acc, bk⟩ .asynqValue a rel = refCv ⟨k, ft, acc, bk⟩ .asynqValue a rel := by
+    modelCvF (Env.quiet keyOf hf rs) ⟨k, ft, acc, bk⟩ .asynqValue a rel = refCv ⟨k, ft, acc, bk⟩ .asynqValue a rel := by
   cases k <;> cases ft <;> cases acc <;> cases bk <;> first | rfl | (simp [supported] at h)
 
 theorem modelCv_eq_ref_yieldAsynq (k : Kind) (ft : FnType) (acc : Access) (bk : BodyKind) (a : Args)
     (keyOf : Args → Args) (hf : Nat → Nat) (rs : Bool) (rel : Rel) (h : supported k ft acc = true) :
-    modelCv (Env.quiet keyOf hf rs) ⟨k, ft, acc, bk⟩ .yieldAsynq a rel = refCv ⟨k, ft, acc, bk⟩ .yieldAsynq a rel := by
+    modelCvF (Env.quiet keyOf hf rs) ⟨k, ft, acc, bk⟩ .yieldAsynq a rel = refCv ⟨k, ft, acc, bk⟩ .yieldAsynq a rel := by
   cases k <;> cases ft <;> cases acc <;> cases bk <;> first | rfl | (simp [supported] at h)
 
 theorem modelCv_eq_ref_nestedSync (k : Kind) (ft : FnType) (acc : Access) (bk : BodyKind) (a : Args)
     (keyOf : Args → Args) (hf : Nat → Nat) (rs : Bool) (rel : Rel) (h : supported k ft acc = true) :
-    modelCv (Env.quiet keyOf hf rs) ⟨k, ft, acc, bk⟩ .nestedSync a rel = refCv ⟨k, ft, acc, bk⟩ .nestedSync a rel := by
+    modelCvF (Env.quiet keyOf hf rs) ⟨k, ft, acc, bk⟩ .nestedSync a rel = refCv ⟨k, ft, acc, bk⟩ .nestedSync a rel := by
   cases k <;> cases ft <;> cases acc <;> cases bk <;> first | rfl | (simp [supported] at h)
 
 theorem modelCv_eq_ref_asyncCall (k : Kind) (ft : FnType) (acc : Access) (bk : BodyKind) (a : Args)
     (keyOf : Args → Args) (hf : Nat → Nat) (rs : Bool) (rel : Rel) (h : supported k ft acc = true) :
-    modelCv (Env.quiet keyOf hf rs) ⟨k, ft, acc, bk⟩ .asyncCall a rel = refCv ⟨k, ft, acc, bk⟩ .asyncCall a rel := by
+    modelCvF (Env.quiet keyOf hf rs) ⟨k, ft, acc, bk⟩ .asyncCall a rel = refCv ⟨k, ft, acc, bk⟩ .asyncCall a rel := by
   cases k <;> cases ft <;> cases acc <;> cases bk <;> first | rfl | (simp [supported] at h)
 
 theorem modelCv_eq_ref_asyncCallSync (k : Kind) (ft : FnType) (acc : Access) (bk : BodyKind) (a : Args)
     (keyOf : Args → Args) (hf : Nat → Nat) (rs : Bool) (rel : Rel) (h : supported k ft acc = true) :
-    modelCv (Env.quiet keyOf hf rs) ⟨k, ft, acc, bk⟩ .asyncCallSync a rel = refCv ⟨k, ft, acc, bk⟩ .asyncCallSync a rel := by
+    modelCvF (Env.quiet keyOf hf rs) ⟨k, ft, acc, bk⟩ .asyncCallSync a rel = refCv ⟨k, ft, acc, bk⟩ .asyncCallSync a rel := by
   cases k <;> cases ft <;> cases acc <;> cases bk <;> first | rfl | (simp [supported] at h)
 
 theorem modelCv_eq_ref_getAsyncFn (k : Kind) (ft : FnType) (acc : Access) (bk : BodyKind) (a : Args)
     (keyOf : Args → Args) (hf : Nat → Nat) (rs : Bool) (rel : Rel) (h : supported k ft acc = true) :
-    modelCv (Env.quiet keyOf hf rs) ⟨k, ft, acc, bk⟩ .getAsyncFn a rel = refCv ⟨k, ft, acc, bk⟩ .getAsyncFn a rel := by
+    modelCvF (Env.quiet keyOf hf rs) ⟨k, ft, acc, bk⟩ .getAsyncFn a rel = refCv ⟨k, ft, acc, bk⟩ .getAsyncFn a rel := by
   cases k <;> cases ft <;> cases acc <;> cases bk <;> first | rfl | (simp [supported] at h)
 
 theorem modelCv_eq_ref_getAsyncOrSync (k : Kind) (ft : FnType) (acc : Access) (bk : BodyKind) (a : Args)
     (keyOf : Args → Args) (hf : Nat → Nat) (rs : Bool) (rel : Rel) (h : supported k ft acc = true) :
-    modelCv (Env.quiet keyOf hf rs) ⟨k, ft, acc, bk⟩ .getAsyncOrSync a rel = refCv ⟨k, ft, acc, bk⟩ .getAsyncOrSync a rel := by
+    modelCvF (Env.quiet keyOf hf rs) ⟨k, ft, acc, bk⟩ .getAsyncOrSync a rel = refCv ⟨k, ft, acc, bk⟩ .getAsyncOrSync a rel := by
   cases k <;> cases ft <;> cases acc <;> cases bk <;> first | rfl | (simp [supported] at h)
 
 theorem modelCv_eq_ref_getAsyncFnWrap (k : Kind) (ft : FnType) (acc : Access) (bk : BodyKind) (a : Args)
     (keyOf : Args → Args) (hf : Nat → Nat) (rs : Bool) (rel : Rel) (h : supported k ft acc = true) :
-    modelCv (Env.quiet keyOf hf rs) ⟨k, ft, acc, bk⟩ .getAsyncFnWrap a rel = refCv ⟨k, ft, acc, bk⟩ .getAsyncFnWrap a rel := by
+    modelCvF (Env.quiet keyOf hf rs) ⟨k, ft, acc, bk⟩ .getAsyncFnWrap a rel = refCv ⟨k, ft, acc, bk⟩ .getAsyncFnWrap a rel := by
   cases k <;> cases ft <;> cases acc <;> cases bk <;> first | rfl | (simp [supported] at h)
 
 theorem modelCv_eq_ref_twin (k : Kind) (ft : FnType) (acc : Access) (bk : BodyKind) (a : Args)
     (keyOf : Args → Args) (hf : Nat → Nat) (rs : Bool) (rel : Rel) (h : supported k ft acc = true) :
-    modelCv (Env.quiet keyOf hf rs) ⟨k, ft, acc, bk⟩ .twin a rel = refCv ⟨k, ft, acc, bk⟩ .twin a rel := by
+    modelCvF (Env.quiet keyOf hf rs) ⟨k, ft, acc, bk⟩ .twin a rel = refCv ⟨k, ft, acc, bk⟩ .twin a rel := by
   cases k <;> cases ft <;> cases acc <;> cases bk <;> first | rfl | (simp [supported] at h)
 
 /-- the conventions with ONE call: arbitrary key function, arbitrary hashes -/
 theorem modelCv_eq_ref_quiet (k : Kind) (ft : FnType) (acc : Access) (bk : BodyKind) (cv : Cv) (a : Args)
     (keyOf : Args → Args) (hf : Nat → Nat) (rs : Bool) (rel : Rel)
     (h : supported k ft acc = true) (hcv : cv.isSib = false) :
-    modelCv (Env.quiet keyOf hf rs) ⟨k, ft, acc, bk⟩ cv a rel = refCv ⟨k, ft, acc, bk⟩ cv a rel := by
+    modelCvF (Env.quiet keyOf hf rs) ⟨k, ft, acc, bk⟩ cv a rel = refCv ⟨k, ft, acc, bk⟩ cv a rel := by
   cases cv
   · exact modelCv_eq_ref_sync k ft acc bk a keyOf hf rs rel h
   · exact modelCv_eq_ref_asynqValue k ft acc bk a keyOf hf rs rel h
@@ -72,7 +72,7 @@ theorem modelCv_eq_ref_quiet (k : Kind) (ft : FnType) (acc : Access) (bk : BodyK
 
 theorem modelCv_eq_ref (k : Kind) (ft : FnType) (acc : Access) (bk : BodyKind) (cv : Cv) (a : Args)
     (keyOf : Args → Args) (h : supported k ft acc = true) (hcv : cv.isSib = false) :
-    modelCv (Env.idle keyOf) ⟨k, ft, acc, bk⟩ cv a = refCv ⟨k, ft, acc, bk⟩ cv a :=
+    modelCvF (Env.idle keyOf) ⟨k, ft, acc, bk⟩ cv a = refCv ⟨k, ft, acc, bk⟩ cv a :=
   modelCv_eq_ref_quiet k ft acc bk cv a keyOf id false .args h hcv
 
 theorem modelCls_eq_ref (k : Kind) (ft : FnType) (acc : Access) (bk : BodyKind) (h : supported k ft acc = true) :
